@@ -54,6 +54,20 @@ type c16Case struct {
 	Linked   []bool `json:"linked,omitempty"`
 	// TextStyle of env / label file i: 0 plain, 1 starts with a byte order mark, 2 CRLF line ends, 3 both, 4 no final newline
 	TextStyle []int `json:"text_style,omitempty"`
+	// RepeatFirst: the env_file list names file 0 again at its end: entries are applied in the order they are listed
+	RepeatFirst bool `json:"repeat_first_env_file,omitempty"`
+}
+
+// envFileOrder is the order in which the env files of the service are listed.
+func (cs c16Case) envFileOrder() []int {
+	var o []int
+	for f := 0; f < cs.NFiles; f++ {
+		o = append(o, f)
+	}
+	if cs.RepeatFirst && cs.NFiles >= 2 {
+		o = append(o, 0)
+	}
+	return o
 }
 
 func c16Styled(content string, style int) string {
@@ -165,6 +179,17 @@ func genC16(t *rapid.T) c16Case {
 		}
 		cs.Labels = append(cs.Labels, l)
 	}
+	// the first file listed once more at the end (only when none of its values is a reference: re-applying literal
+	// assignments has one reading)
+	if cs.NFiles >= 2 && !cs.Missing[0] && rapid.IntRange(0, 3).Draw(t, "repeatfirst") == 0 {
+		ok := true
+		for _, k := range cs.Keys {
+			if len(k.InFiles) > 0 && k.InFiles[0] && k.RefTo != "" {
+				ok = false
+			}
+		}
+		cs.RepeatFirst = ok
+	}
 	return cs
 }
 
@@ -210,7 +235,7 @@ func (cs c16Case) build() (loadCase, map[string]*string, map[string]string, bool
 	// reference layering
 	env := map[string]string{} // from files
 	mustFail := false
-	for f := 0; f < cs.NFiles; f++ {
+	for _, f := range cs.envFileOrder() {
 		if cs.Missing[f] {
 			if cs.Required[f] {
 				mustFail = true
@@ -281,13 +306,13 @@ func (cs c16Case) build() (loadCase, map[string]*string, map[string]string, bool
 			svc["env_file"] = "./envs/file0.env"
 		case 1:
 			var l []any
-			for f := 0; f < cs.NFiles; f++ {
+			for _, f := range cs.envFileOrder() {
 				l = append(l, fmt.Sprintf("./envs/file%d.env", f))
 			}
 			svc["env_file"] = l
 		default:
 			var l []any
-			for f := 0; f < cs.NFiles; f++ {
+			for _, f := range cs.envFileOrder() {
 				m := map[string]any{"path": fmt.Sprintf("./envs/file%d.env", f)}
 				if !cs.Required[f] {
 					m["required"] = false
@@ -434,6 +459,9 @@ func c16Check(c *Ctx, cs c16Case) *Failure {
 	s := r.Project.Services["svc"]
 	if !unspecified {
 		got := map[string]*string(s.Environment)
+		if envStr(got) != envStr(want) && cs.RepeatFirst {
+			return failf("c16:repeated-env-file-keeps-first-position", "an env file listed twice is applied at its first position only: environment is\n  %s\nreference (entries applied in the order they are listed)\n  %s\n%s", envStr(got), envStr(want), desc())
+		}
 		if envStr(got) != envStr(want) {
 			return failf("c16:wrong-environment", "environment is\n  %s\nreference\n  %s\n%s", envStr(got), envStr(want), desc())
 		}
@@ -528,7 +556,7 @@ func c16Check(c *Ctx, cs c16Case) *Failure {
 		}
 		a, b := r.Project, r2.Project
 		bs := b.Services["svc"]
-		if cs.NFiles > 0 && len(bs.EnvFiles) != cs.NFiles {
+		if cs.NFiles > 0 && len(bs.EnvFiles) != cs.NFiles && !(cs.RepeatFirst && len(bs.EnvFiles) == cs.NFiles+1) {
 			return failf("c16:env-file-references-lost", "without discard the service has %d env_file entries, expected %d", len(bs.EnvFiles), cs.NFiles)
 		}
 		for n, sv := range b.Services {
@@ -538,7 +566,7 @@ func c16Check(c *Ctx, cs c16Case) *Failure {
 		if !projectsEqual(a, b) {
 			return failf("c16:discard-changed-more-than-file-references", "discard changed more than env_file/label_file:\n%s", projectDiff(b, a))
 		}
-	} else if cs.NFiles > 0 {
+	} else if cs.NFiles > 0 && !cs.RepeatFirst {
 		if len(s.EnvFiles) != cs.NFiles {
 			return failf("c16:env-file-references-lost", "the service has %d env_file entries, expected %d", len(s.EnvFiles), cs.NFiles)
 		}
